@@ -32,8 +32,9 @@ For property P and change letter X in ({l1}, {l2}): make the edit, run the tests
 pairs = [(i, (i + 7) % 20 if False else None) for i in range(20)]
 order = list(range(20))
 # pair property k with property k+10 (different pairing than earlier rounds)
+PAIRING = os.environ.get("SEED_PAIRING", "plus10")
 for n in range(10):
-    a, b = props[n], props[n + 10]
+    a, b = (props[n], props[n + 10]) if PAIRING == "plus10" else (props[n], props[19 - n])
     wt = f"/tmp/wt/S{n + 1:02d}"
     txt = HEAD.format(wt=wt, out=out, l1=l1, l2=l2)
     for p in (a, b):
